@@ -522,6 +522,13 @@ fn run_history(w: &W, f: &FileModel, steps: u64, allow_faults: bool, allow_cut: 
                     2 => base.chars().take(base.chars().count().saturating_sub(1)).collect(),
                     3 => format!("{}x", base),
                     4 => COLLIDING_NAMES[w.draw(COLLIDING_NAMES.len() as u64) as usize].to_string(),
+                    5 if w.chance(1, 2) => {
+                        // a long unknown name of multi-byte characters at a drawn byte alignment
+                        // (error messages that quote the name must cope with it)
+                        let pad = w.draw(4) as usize;
+                        let n = *w.pick(&[40usize, 64, 100, 130, 300]);
+                        format!("{}{}", "x".repeat(pad), (*w.pick(&["é", "中", "😀"])).repeat(n))
+                    }
                     _ => format!(" {}", base),
                 };
                 if nm.is_empty() {
@@ -611,7 +618,7 @@ fn run_history(w: &W, f: &FileModel, steps: u64, allow_faults: bool, allow_cut: 
                     Ok(it) => it,
                     Err(e) => return fail("C12.c-must-succeed", format!("step {}: read_iter() after {:?} failed on an intact file with no fault injected: {}", step, fop, e)),
                 };
-                let style = w.draw(7);
+                let style = w.draw(11);
                 let (got, expect, how): (Vec<u8>, Vec<u8>, String) = match style {
                     0 => {
                         // nth with varying strides, after consuming a few items with next()
@@ -680,6 +687,60 @@ fn run_history(w: &W, f: &FileModel, steps: u64, allow_faults: bool, allow_cut: 
                             acc
                         });
                         (got, want.clone(), "fold".to_string())
+                    }
+                    7..=10 => {
+                        // methods called on the iterator ITSELF (not through an adaptor, which would
+                        // route them to next/try_fold), after a drawn number of next() calls — possibly
+                        // all of them, so that the region is already used up
+                        let mut it = it;
+                        let pre = match w.draw(3) {
+                            0 => 0,
+                            1 => w.draw(want.len() as u64 + 1) as usize,
+                            _ => want.len(),
+                        };
+                        let mut got: Vec<u8> = vec![];
+                        for _ in 0..pre {
+                            if let Some(Ok(b)) = it.next() {
+                                got.push(b);
+                            }
+                        }
+                        let mut expect: Vec<u8> = want[..pre.min(want.len())].to_vec();
+                        let rest = &want[pre.min(want.len())..];
+                        let how = match style {
+                            7 => {
+                                got.extend(it.last().and_then(|x| x.ok()));
+                                expect.extend(rest.last().copied());
+                                "last()"
+                            }
+                            8 => {
+                                got.push((it.count() % 251) as u8);
+                                expect.push((rest.len() % 251) as u8);
+                                "count() (mod 251)"
+                            }
+                            9 => {
+                                let tail = it.fold(Vec::new(), |mut acc: Vec<u8>, x| {
+                                    if acc.len() < 1_000_000 {
+                                        acc.push(x.unwrap_or(b'?'));
+                                    }
+                                    acc
+                                });
+                                got.extend(tail);
+                                expect.extend_from_slice(rest);
+                                "fold()"
+                            }
+                            _ => {
+                                let mut tail = vec![];
+                                it.for_each(|x| {
+                                    if tail.len() < 1_000_000 {
+                                        tail.push(x.unwrap_or(b'?'))
+                                    }
+                                });
+                                got.extend(tail);
+                                expect.extend_from_slice(rest);
+                                "for_each()"
+                            }
+                        };
+                        (got, expect, format!("{} × next(), then {} on the iterator itself", pre, how))
                     }
                     _ => {
                         // Vec::extend / collect reserve from size_hint()
@@ -1165,8 +1226,88 @@ fn ix_partitions(w: &W) -> Verdict {
 
 /// One record of up to 2^35 bases served from a formula (`world::Virtual`): file offsets around
 /// and beyond 2^31 and 2^32, where a narrowing cast in offset arithmetic would show.
+/// An index of more than 65 536 records (tiny ones): record numbers and name lookups beyond the
+/// range of 16-bit counters. Entered from ix_virtual in 1 run of 100.
+fn ix_giant_index(w: &W) -> Verdict {
+    w.probe("workload_nonempty");
+    w.probe("index_with_more_than_65536_records");
+    w.fired("knob_giant_index");
+    let n = 65_530 + w.draw(3000) as usize;
+    let crlf = w.chance(1, 2);
+    let term: &[u8] = if crlf { b"\r\n" } else { b"\n" };
+    let mut bytes: Vec<u8> = Vec::with_capacity(n * 10);
+    let mut fai = String::with_capacity(n * 20);
+    let mut offs: Vec<(u64, u8)> = Vec::with_capacity(n); // (offset, len)
+    for i in 0..n {
+        bytes.push(b'>');
+        bytes.extend_from_slice(format!("s{}", i).as_bytes());
+        bytes.extend_from_slice(term);
+        let len = 1 + (i % 3);
+        let off = bytes.len() as u64;
+        for j in 0..len {
+            bytes.push(BASES[(i + 3 * j) % BASES.len()]);
+        }
+        bytes.extend_from_slice(term);
+        offs.push((off, len as u8));
+        fai.push_str(&format!("s{}\t{}\t{}\t{}\t{}\n", i, len, off, len, len + term.len()));
+    }
+    let chunk = *w.pick(&[Chunk::Full, Chunk::Fixed(4096), Chunk::Fixed(7)]);
+    let src = SimSeekRead::new(w, Rc::new(bytes), IoCfg { chunk, eintr_pm: 0, eio_pm: 0 }, "fasta");
+    let mut reader = match IndexedReader::new(src, fai.as_bytes()) {
+        Ok(r) => r,
+        Err(e) => return fail("C12.f-index", format!("IndexedReader::new rejected a well-formed .fai of {} rows: {}", n, e)),
+    };
+    if reader.index.sequences().len() != n {
+        return fail("C12.f-index", format!("Index::sequences() has {} entries, the .fai has {} rows", reader.index.sequences().len(), n));
+    }
+    if w.keep_trace {
+        w.note("giant_index", json!({"records": n, "crlf": crlf, "read_regime": chunk.name()}));
+    }
+    let mut buf = vec![];
+    for _ in 0..10 {
+        let rid = match w.draw(7) {
+            0 => 0,
+            1 => 65_535,
+            2 => 65_536,
+            3 => 65_537,
+            4 => n - 1,
+            5 => 65_536 + w.draw((n - 65_536) as u64) as usize,
+            _ => w.draw(n as u64) as usize,
+        }
+        .min(n - 1);
+        let (_, len) = offs[rid];
+        let want: Vec<u8> = (0..len as usize).map(|j| BASES[(rid + 3 * j) % BASES.len()]).collect();
+        let by_name = w.chance(1, 2);
+        w.clause("C12.a-slice");
+        w.set_budget(2000);
+        let fr = if by_name { reader.fetch_all(&format!("s{}", rid)) } else { reader.fetch_all_by_rid(rid) };
+        if let Err(e) = fr {
+            return fail("C12.c-must-succeed", format!("fetch of record {} of {} ({}) failed: {}", rid, n, if by_name { "by name" } else { "by number" }, e));
+        }
+        if let Err(e) = reader.read(&mut buf) {
+            return fail("C12.c-must-succeed", format!("read of record {} of {} failed on an intact file: {}", rid, n, e));
+        }
+        w.set_budget(u64::MAX);
+        if buf != want {
+            return fail(
+                "C12.a-slice",
+                format!("record {} of {} fetched {}: read {:?}, model says {:?}", rid, n, if by_name { "by name" } else { "by number" }, show(&buf), show(&want)),
+            );
+        }
+    }
+    // a record number just past the end must be refused
+    w.clause("C12.d-must-fail");
+    if reader.fetch_all_by_rid(n).is_ok() && reader.read(&mut buf).is_ok() {
+        return fail("C12.d-must-fail", format!("record number {} of an index with {} records was accepted", n, n));
+    }
+    Ok(())
+}
+
 fn ix_virtual(w: &W) -> Verdict {
     use crate::world::Virtual;
+    if w.chance(1, 100) {
+        return ix_giant_index(w);
+    }
     w.probe("workload_nonempty");
     w.probe("offsets_beyond_4gib");
     w.fired("knob_virtual_huge_file");
@@ -1321,7 +1462,7 @@ pub fn property() -> Property {
             "start_on_line_boundary", "stop_on_line_boundary", "empty_interval_read", "iterator_dropped_half_way", "operation_after_dropped_iterator",
             "read_after_failed_read", "iterator_driven_through_adaptors", "request_related_to_previous", "re_read_without_new_fetch", "exact_read_after_failed_operation", "operation_failed_by_injected_fault", "cut_inside_requested_range",
             "cut_after_requested_range", "cut_inside_terminator_after_range", "short_file_reported_as_error", "fetch_rejected_unknown_target",
-            "file_without_final_terminator", "empty_record", "fai_rows_not_in_file_order", "magic_size_run", "large_regime", "many_records_regime", "huge_regime", "offsets_beyond_4gib", "allpairs_sweep", "all_partitions_sweep",
+            "file_without_final_terminator", "empty_record", "fai_rows_not_in_file_order", "magic_size_run", "large_regime", "many_records_regime", "huge_regime", "index_with_more_than_65536_records", "offsets_beyond_4gib", "allpairs_sweep", "all_partitions_sweep",
         ],
         quick_runs: 300_000,
         thorough_runs: 20_000_000,
